@@ -219,6 +219,22 @@ def declare_events(C):
 
 
 # ---------------------------------------------------------------- native demos as finite checks
+def native_script_check(script, what):
+    """like native_demo_check, for an enumeration script under replay/ (bounded; never counted as proved)"""
+    def check(C):
+        import os
+        import subprocess
+        from pyvc import extract
+        here = os.path.dirname(os.path.dirname(os.path.abspath(__file__)))
+        r = subprocess.run(["/venv/bin/python", "-W", "ignore", os.path.join(here, "replay", script)], capture_output=True,
+                           text=True, timeout=1200, cwd=extract.REPO, env=dict(os.environ, PYTHONPATH=extract.REPO))
+        lines = [l for l in r.stdout.strip().splitlines() if l.startswith(("ok", "FAIL"))]
+        return [("native (BOUNDED): %s (replay/%s)" % (what, script), r.returncode == 0,
+                 (lines[-1] if lines else "") if r.returncode == 0 else
+                 "FAILS: " + (lines[-1] if lines else " ".join((r.stdout + r.stderr).split())[-400:]))]
+    return check
+
+
 def native_demo_check(demo, what):
     """a stand-alone history on the REAL code (replay/demos/<demo>, run with /venv python on the tree under check): exit 0
     = the property holds on that history.  Used where a contract rests on an assumed relation whose real meaning is a
